@@ -401,6 +401,11 @@ UNITS = [
       need_classes=["assertion"], kind="bounded: the property's stated domain (1..3 groups x 1..2 sockets), one callback from an arbitrary state",
       bound=5, native=None, timeout=1800, object_bits=10, allow_undefined=True,
       stubs=["rtr_start", "rtr_stop", "pthread_rwlock_*", "lrtr_dbg"]),
+    U(id="mgr_init", props=["C15", "C18"], file="units/mgr.c", entry="h_mgr_init", defines=["H_ENTRY=h_mgr_init"], enforce=[], plain=True,
+      checked_by_assertions=["rtr_mgr_init", "rtr_mgr_init_sockets", "rtr_mgr_config_cmp", "tommy_list_sort"],
+      need_classes=["assertion"], kind="bounded: the property's stated domain (0..3 groups x 0..2 sockets)",
+      bound=5, native=None, timeout=1800, object_bits=10, allow_undefined=True,
+      stubs=["rtr_init", "pfx_table_init", "spki_table_init", "pfx_table_free", "spki_table_free", "lrtr_malloc", "lrtr_free", "qsort", "pthread_rwlock_*"]),
     # ------------------------------------------------------------------ C20
     U(id="c20_state_names", props=["C20"], file="units/c20_state_names.c", entry="h_c20_state",
       enforce=["rtr_state_to_str"], kind="complete", bound=70,
